@@ -2,16 +2,21 @@
 // Contract: classify_predicate(p, Some(alias)) == Inconsistent  <=>  p mentions a comparison of the Kleene alias with itself,
 // i.e. contains a CompareRef whose ref_alias is the alias, anywhere under And / Or / Not.  (Predicate::Expr leaves are not covered.)
 pub fn cmp(v: i64) -> Predicate { Predicate::Compare { field: String::from("x"), op: CompareOp::Gt, value: Value::Int(v) } }
+/// alias names are CONCRETE (building a String from a symbolic char and comparing it is a memcmp over symbolic data: the cells ran > 500 s / 3.5 GB each):
+/// alias code 0 is the name "b", every other code "other"; the 'other alias' leaf always takes the name that is not the Kleene alias — the function only ever compares alias names for equality
+pub fn alias_name(alias_char: u8) -> &'static str { if alias_char & 0x7f == 0 { "b" } else { "other" } }
+/// a reference to an alias that is NOT the Kleene alias `alias_char`
+pub fn cref_other(alias_char: u8) -> Predicate {
+    let n = if alias_char & 0x7f == 0 { "other" } else { "b" };
+    Predicate::CompareRef { field: String::from("x"), op: CompareOp::Gt, ref_alias: String::from(n), ref_field: String::from("x") }
+}
 pub fn cref(alias_char: u8) -> Predicate {
-    Predicate::CompareRef { field: String::from("x"), op: CompareOp::Gt, ref_alias: ((alias_char & 0x7f) as char).to_string(), ref_field: String::from("x") }
+    Predicate::CompareRef { field: String::from("x"), op: CompareOp::Gt, ref_alias: String::from(alias_name(alias_char)), ref_field: String::from("x") }
 }
 /// leaf kinds: 0 = constant comparison, 1 = comparison with the Kleene alias itself, 2 = comparison with another alias
-pub fn leaf(kind: u8, a: u8, other: u8, v: i64) -> Predicate { match kind { 0 => cmp(v), 1 => cref(a), _ => cref(other) } }
+pub fn leaf(kind: u8, a: u8, other: u8, v: i64) -> Predicate { match kind { 0 => cmp(v), 1 => cref(a), _ => cref_other(a) } }
 pub fn is_incons(p: &Predicate, a: u8) -> bool {
-    let al = ((a & 0x7f) as char).to_string();
-    let r = classify_predicate(p, Some(al.as_str())) == PredicateClass::Inconsistent;
-    std::mem::forget(al);
-    r
+    classify_predicate(p, Some(alias_name(a))) == PredicateClass::Inconsistent
 }
 
 vpv_cell!(#[kani::unwind(6)] c03_classify_leaf_const, "C03/classify_predicate/leaf/const", (a: u8, o: u8, v: i64), { if (a & 0x7f) == (o & 0x7f) { return true; } let p = leaf(0, a, o, v); let ok = is_incons(&p, a) == (0 == 1); std::mem::forget(p); ok });
@@ -38,7 +43,7 @@ vpv_cell!(#[kani::unwind(6)] c03_classify_or_self_other, "C03/classify_predicate
 vpv_cell!(#[kani::unwind(6)] c03_classify_or_other_const, "C03/classify_predicate/Or/other-const", (a: u8, o: u8, v: i64), { if (a & 0x7f) == (o & 0x7f) { return true; } let p = Predicate::Or(Box::new(leaf(2, a, o, v)), Box::new(leaf(0, a, o, v))); let ok = is_incons(&p, a) == false; std::mem::forget(p); ok });
 vpv_cell!(#[kani::unwind(6)] c03_classify_or_other_self, "C03/classify_predicate/Or/other-self", (a: u8, o: u8, v: i64), { if (a & 0x7f) == (o & 0x7f) { return true; } let p = Predicate::Or(Box::new(leaf(2, a, o, v)), Box::new(leaf(1, a, o, v))); let ok = is_incons(&p, a) == true; std::mem::forget(p); ok });
 vpv_cell!(#[kani::unwind(6)] c03_classify_or_other_other, "C03/classify_predicate/Or/other-other", (a: u8, o: u8, v: i64), { if (a & 0x7f) == (o & 0x7f) { return true; } let p = Predicate::Or(Box::new(leaf(2, a, o, v)), Box::new(leaf(2, a, o, v))); let ok = is_incons(&p, a) == false; std::mem::forget(p); ok });
-vpv_cell!(#[kani::unwind(6)] c03_classify_nested, "C03/classify_predicate/Or(const, Not(And(other, self)))", (a: u8, o: u8, v: i64), { if (a & 0x7f) == (o & 0x7f) { return true; } let p = Predicate::Or(Box::new(cmp(v)), Box::new(Predicate::Not(Box::new(Predicate::And(Box::new(cref(o)), Box::new(cref(a))))))); let ok = is_incons(&p, a); std::mem::forget(p); ok });
+vpv_cell!(#[kani::unwind(6)] c03_classify_nested, "C03/classify_predicate/Or(const, Not(And(other, self)))", (a: u8, o: u8, v: i64), { if (a & 0x7f) == (o & 0x7f) { return true; } let p = Predicate::Or(Box::new(cmp(v)), Box::new(Predicate::Not(Box::new(Predicate::And(Box::new(cref_other(a)), Box::new(cref(a))))))); let ok = is_incons(&p, a); std::mem::forget(p); ok });
 vpv_cell!(#[kani::unwind(6)] c03_classify_no_alias, "C03/classify_predicate/no Kleene alias -> Consistent", (a: u8, v: i64), { let p = Predicate::And(Box::new(cref(a)), Box::new(cmp(v))); let ok = classify_predicate(&p, None) == PredicateClass::Consistent; std::mem::forget(p); ok });
 
 // ---- enumerate_with_filter + evaluate_deferred_predicate: BOUNDED STAND-IN (native enumeration).  These go through FxHashMap captures and the ZDD
